@@ -7,7 +7,7 @@ import ast
 from ..cfg import Oracle, build_cfg
 from ..index import AnalysisError, UNKNOWN, norm, unparse
 from ..report import Ctx
-from ..terms import cmp_const, const, evaluator, mentions, show
+from ..terms import cmp_const, const, evaluator, mentions, show, subterms
 from ..util import Facts, LockSets, callee_attr, calls_in_node, cfg_nodes_with_call, feasible_paths, lexical_locks, xtext
 
 IDLOCK = "Group._autoidlock"
@@ -183,6 +183,13 @@ def check(ctx: Ctx) -> None:
         for (kind, ev, K, V, cond, st) in sp["stores"]:
             containers = _containers(kind) + ([st.env["self.env"]] if kind == "env" and "self.env" in st.env else [])
             tested = any(t[0] == "cmp" and t[1] == "in" and t[3] in containers and v is False and t[2] == K for (t, v) in cond)
+            if not tested:
+                # the test may be one operand of a combined condition: decide `K not in container` from the whole path condition
+                from ..terms import implies as _imp
+                try:
+                    tested = any(_imp(cond, ("not", ("cmp", "in", K, c_))) is True and any(("cmp", "in", K, c_) in set(subterms(t)) for (t, _v) in cond) for c_ in containers)
+                except Exception:
+                    tested = False
             ob.site(fx, ev.node, f"{kind} store of key {show(K)} only after `key in {show(containers[0])}` tested false", ok=tested)
             if not tested:
                 ob.violation(fx, ev.node, f"the key is stored in {show(containers[0])} but no dominating duplicate test consults {show(containers[0])}: a repeated key of this kind is accepted silently",
